@@ -20,7 +20,8 @@ func namesCfg() cfgT {
 		return stmtT{id: id, cols: cols, poids: []int{23, 25}[:id%3%2+0], prog: prog, ret: "nil"}
 	}
 	return cfgT{limit: 512, auth: "none", term: "none", parse: []parseEntry{
-		{query: []byte("q1"), stmts: []stmtT{mk(1, 1, "one")}},
+		{query: []byte("q1"), stmts: []stmtT{{id: 1, cols: []colT{{name: []byte("n"), oid: 23}}, poids: []int{23},
+			prog: []opT{{kind: "row", vals: []valT{{kind: "int4", n: 42}}}, {kind: "complete", tag: []byte("one")}}, ret: "nil"}}},
 		{query: []byte("q2"), stmts: []stmtT{mk(2, 2, "two")}},
 		{query: []byte("q3"), stmts: []stmtT{mk(3, 0, "three")}},
 	}}
@@ -44,6 +45,10 @@ func runC07(c *runCfg) error {
 		for _, s := range names {
 			alphabet = append(alphabet, mBind(p, s, nil, []bindP{{v: append([]byte("p"), append(p, s...)...)}}, nil))
 		}
+	}
+	// binds that differ only in their result formats (re-binding, two live portals)
+	for _, p := range names {
+		alphabet = append(alphabet, mBind(p, names[0], nil, nil, []int{1}), mBind(p, names[1], []int{1}, []bindP{{v: []byte{0, 0, 0, 7}}}, []int{0}))
 	}
 	for _, n := range names {
 		alphabet = append(alphabet, mDescribe('S', n), mDescribe('P', n), mExecute(n, 0), mClose('S', n), mClose('P', n))
@@ -75,7 +80,7 @@ func runC07(c *runCfg) error {
 			msgs = append(msgs, alphabet[k])
 		}
 		// a final Execute of both portals shows what the names resolve to
-		msgs = append(msgs, mSync(), mExecute(names[0], 0), mSync(), mExecute(names[1], 0), mSync(), mDescribe('S', names[0]), mSync(), mDescribe('S', names[1]), mSync())
+		msgs = append(msgs, mSync(), mDescribe('P', names[0]), mExecute(names[0], 0), mSync(), mDescribe('P', names[1]), mExecute(names[1], 0), mSync(), mDescribe('S', names[0]), mSync(), mDescribe('S', names[1]), mSync())
 		if c.shards <= 1 || id%c.shards == c.shard {
 			emitSession(c, lockCase(id, "exhaustive", cfg, stdStartup, msgs))
 		}
@@ -192,6 +197,33 @@ func runC08(c *runCfg) error {
 			}
 		}
 	}
+	// re-binding a portal with other result formats; two live portals with different formats
+	{
+		intCfg := cfgT{limit: 1 << 20, auth: "none", term: "none", parse: []parseEntry{{query: []byte("q"), stmts: []stmtT{{id: 9,
+			cols: []colT{{name: []byte("n"), oid: 23}, {name: []byte("t"), oid: 25}}, poids: []int{23},
+			prog: []opT{{kind: "row", vals: []valT{{kind: "int4", n: 20}, tv("x")}}, {kind: "complete", tag: []byte("SELECT 1")}}, ret: "nil"}}}}}
+		for _, a := range [][]int{nil, {0}, {1}, {1, 0}, {0, 1}} {
+			for _, b := range [][]int{nil, {0}, {1}, {1, 0}, {0, 1}} {
+				msgs := [][]byte{mParse([]byte("s"), []byte("q"), 0),
+					mBind([]byte("x"), []byte("s"), nil, nil, a), mBind([]byte("x"), []byte("s"), nil, nil, b),
+					mDescribe('P', []byte("x")), mExecute([]byte("x"), 0), mSync(),
+					mBind([]byte("p1"), []byte("s"), nil, nil, a), mBind([]byte("p2"), []byte("s"), nil, nil, b),
+					mDescribe('P', []byte("p1")), mExecute([]byte("p1"), 0), mDescribe('P', []byte("p2")), mExecute([]byte("p2"), 0), mSync()}
+				emitSession(c, lockCase(id, "rebind", intCfg, stdStartup, msgs))
+				id++
+			}
+		}
+	}
+	// statements declaring many parameter types (the 16-bit count of ParameterDescription)
+	for _, n := range []int{255, 256, 32767, 32768, 40000, 65535} {
+		poids := make([]int, n)
+		for i := range poids {
+			poids[i] = []int{0, 23, 25}[i%3]
+		}
+		cfg := mkCfg(1, poids)
+		emitSession(c, lockCase(id, "manyparams", cfg, stdStartup, [][]byte{mParse(nil, []byte("q"), 0), mDescribe('S', nil), mSync()}))
+		id++
+	}
 	// inadmissible codes: outside {0,1}
 	run("badcode", mkCfg(2, nil), []int{2}, values(2, -1), []int{7, 65535})
 	run("badcode", mkCfg(1, nil), []int{65535, 3}, values(2, 0), []int{2})
@@ -271,7 +303,8 @@ func runC13(c *runCfg) error {
 				cfg := mkCfg(1+vi%3, vi%2, v.reads, v.ret, v.stop, v.after)
 				var msgs [][]byte
 				if ext {
-					msgs = append(msgs, mParse(nil, []byte("copy"), 0), mBind(nil, nil, nil, nil, nil), mExecute(nil, 0))
+					rf := [][]int{nil, {1}, {0}, {1, 0, 1}}[(id+vi)%4]
+					msgs = append(msgs, mParse(nil, []byte("copy"), 0), mBind(nil, nil, nil, nil, rf), mExecute(nil, 0))
 				} else {
 					msgs = append(msgs, mQuery([]byte("copy")))
 				}
